@@ -17,6 +17,8 @@ for _d in _g.glob(os.path.join(V, "seeded", "C*-[56]")):
     GROUP[os.path.basename(_d)] = "round 3, combined worktree of 37 seeded patches on /repo 22d0831"
 for _d in _g.glob(os.path.join(V, "seeded", "C*-[78]")):
     GROUP[os.path.basename(_d)] = "round 4, combined worktree of all 40 round-4 seeded patches on /repo 769ab6f"
+for _d in _g.glob(os.path.join(V, "seeded", "C*-9")):
+    GROUP[os.path.basename(_d)] = "round 5, combined worktree of all 20 round-5 seeded patches on /repo 5775569"
 for i in "C02-6 C09-5 C09-6".split(): GROUP[i] = "round 3, combined worktree of 3 seeded patches on /repo 22d0831 (C02-6 and C01-5 together make tests/test_control.py::test_controller_promote hang, each alone passes)"
 for d in sorted(glob.glob(os.path.join(V, "seeded", "C*-*"))):
     i = os.path.basename(d)
